@@ -90,13 +90,14 @@ def checks(d):
 def main():
     mode = sys.argv[1]
     for d in sys.argv[2:]:
-        rp = os.path.join(d, "result.json")
-        r = json.load(open(rp)) if os.path.exists(rp) else {}
+        # separate files per mode: the two modes may run concurrently on the same directory
+        r = {}
         if mode in ("confirm", "all"):
             r["confirm"] = confirm(d)
+            json.dump(r["confirm"], open(os.path.join(d, "confirm.json"), "w"), indent=1)
         if mode in ("checks", "all"):
             r["checks"] = checks(d)
-        json.dump(r, open(rp, "w"), indent=1)
+            json.dump(r["checks"], open(os.path.join(d, "checks.json"), "w"), indent=1)
         c = r.get("confirm", {})
         ch = r.get("checks", {})
         fired = {p: v["exit"] for p, v in ch.items() if v["exit"] != 0}
